@@ -1,0 +1,198 @@
+//! Verification seams. Compiled only with `--cfg pgcat_verif`; nothing here is
+//! referenced by a normal build.
+//!
+//! The seams replace *where bytes, time and randomness come from* so that an
+//! external harness can run the unmodified pooler logic over an in-memory
+//! network, a virtual clock and an enumerated candidate order. They do not
+//! change what the pooler decides.
+
+pub mod net {
+    use std::future::Future;
+    use std::io;
+    use std::net::SocketAddr;
+    use std::pin::Pin;
+    use std::sync::Mutex;
+    use std::task::{Context, Poll};
+    use tokio::io::{AsyncRead, AsyncWrite, DuplexStream, ReadBuf};
+
+    /// Answer of the harness to an outgoing `connect(addr)`.
+    pub enum ConnectOutcome {
+        /// Connection established; the pooler gets this end.
+        Connected(DuplexStream, SocketAddr),
+        /// Connection refused at once.
+        Refused,
+        /// The connect never completes (SYN black hole).
+        Hang,
+    }
+
+    pub type Connector = Box<dyn FnMut(&str) -> ConnectOutcome + Send>;
+
+    static CONNECTOR: Mutex<Option<Connector>> = Mutex::new(None);
+
+    /// Install the function consulted by every outgoing connection.
+    pub fn set_connector(c: Connector) {
+        *CONNECTOR.lock().unwrap() = Some(c);
+    }
+
+    /// In-memory stand-in for `tokio::net::TcpStream`.
+    pub struct TcpStream {
+        inner: DuplexStream,
+        peer: SocketAddr,
+    }
+
+    impl TcpStream {
+        /// Wrap the pooler's end of an accepted (client) connection.
+        pub fn from_duplex(inner: DuplexStream, peer: SocketAddr) -> TcpStream {
+            TcpStream { inner, peer }
+        }
+
+        pub async fn connect(addr: &str) -> io::Result<TcpStream> {
+            let outcome = {
+                let mut guard = CONNECTOR.lock().unwrap();
+                match guard.as_mut() {
+                    Some(c) => c(addr),
+                    None => ConnectOutcome::Refused,
+                }
+            };
+            match outcome {
+                ConnectOutcome::Connected(inner, peer) => Ok(TcpStream { inner, peer }),
+                ConnectOutcome::Refused => Err(io::Error::new(
+                    io::ErrorKind::ConnectionRefused,
+                    "connection refused",
+                )),
+                ConnectOutcome::Hang => {
+                    std::future::pending::<()>().await;
+                    unreachable!()
+                }
+            }
+        }
+
+        pub fn peer_addr(&self) -> io::Result<SocketAddr> {
+            Ok(self.peer)
+        }
+
+        /// Non-blocking write, as `tokio::net::TcpStream::try_write`.
+        pub fn try_write(&mut self, buf: &[u8]) -> io::Result<usize> {
+            let waker = futures::task::noop_waker();
+            let mut cx = Context::from_waker(&waker);
+            match Pin::new(&mut self.inner).poll_write(&mut cx, buf) {
+                Poll::Ready(r) => r,
+                Poll::Pending => Err(io::Error::new(io::ErrorKind::WouldBlock, "would block")),
+            }
+        }
+    }
+
+    impl AsyncRead for TcpStream {
+        fn poll_read(
+            mut self: Pin<&mut Self>,
+            cx: &mut Context<'_>,
+            buf: &mut ReadBuf<'_>,
+        ) -> Poll<io::Result<()>> {
+            Pin::new(&mut self.inner).poll_read(cx, buf)
+        }
+    }
+
+    impl AsyncWrite for TcpStream {
+        fn poll_write(
+            mut self: Pin<&mut Self>,
+            cx: &mut Context<'_>,
+            buf: &[u8],
+        ) -> Poll<io::Result<usize>> {
+            Pin::new(&mut self.inner).poll_write(cx, buf)
+        }
+
+        fn poll_flush(mut self: Pin<&mut Self>, cx: &mut Context<'_>) -> Poll<io::Result<()>> {
+            Pin::new(&mut self.inner).poll_flush(cx)
+        }
+
+        fn poll_shutdown(mut self: Pin<&mut Self>, cx: &mut Context<'_>) -> Poll<io::Result<()>> {
+            Pin::new(&mut self.inner).poll_shutdown(cx)
+        }
+    }
+
+    #[allow(dead_code)]
+    fn _assert_future_send<F: Future + Send>(_: F) {}
+}
+
+pub mod clock {
+    use once_cell::sync::Lazy;
+    use std::time::Duration;
+
+    static START: Lazy<tokio::time::Instant> = Lazy::new(tokio::time::Instant::now);
+
+    /// Fixed epoch the virtual wall clock starts at: 2026-01-01T00:00:00Z.
+    pub const BASE_EPOCH_SECS: i64 = 1_767_225_600;
+
+    /// Call once at harness start (inside the runtime) to pin the origin.
+    pub fn init() {
+        Lazy::force(&START);
+    }
+
+    /// Virtual time elapsed since `init` (tokio's clock, pausable).
+    pub fn elapsed() -> Duration {
+        tokio::time::Instant::now().saturating_duration_since(*START)
+    }
+
+    /// Virtual wall clock as chrono naive UTC; the argument (the real reading)
+    /// is ignored.
+    pub fn naive_utc(_real: chrono::naive::NaiveDateTime) -> chrono::naive::NaiveDateTime {
+        let e = elapsed();
+        chrono::naive::NaiveDateTime::from_timestamp_opt(
+            BASE_EPOCH_SECS + e.as_secs() as i64,
+            e.subsec_nanos(),
+        )
+        .unwrap()
+    }
+
+    /// Virtual wall clock as seconds since the unix epoch.
+    pub fn unix_secs(_real: i64) -> i64 {
+        BASE_EPOCH_SECS + elapsed().as_secs() as i64
+    }
+
+    /// Stand-in for `std::time::SystemTime` as used by `Server.last_activity`.
+    #[derive(Clone, Copy, Debug)]
+    pub struct SystemTime(tokio::time::Instant);
+
+    impl SystemTime {
+        pub fn now() -> SystemTime {
+            SystemTime(tokio::time::Instant::now())
+        }
+
+        pub fn elapsed(&self) -> Result<Duration, std::convert::Infallible> {
+            Ok(tokio::time::Instant::now().saturating_duration_since(self.0))
+        }
+    }
+}
+
+pub mod choice {
+    use crate::config::Address;
+    use std::sync::Mutex;
+
+    /// Given the number of candidates (already in canonical order), return the
+    /// permutation to apply: result[i] = index of the candidate placed at i.
+    pub type Chooser = Box<dyn FnMut(&[&Address]) -> Vec<usize> + Send>;
+
+    static CHOOSER: Mutex<Option<Chooser>> = Mutex::new(None);
+
+    pub fn set_chooser(c: Chooser) {
+        *CHOOSER.lock().unwrap() = Some(c);
+    }
+
+    /// Replace the outcome of `shuffle` by a harness-chosen order. The list is
+    /// popped from the back by the caller, so the *last* element is tried first.
+    pub fn order_candidates(candidates: &mut Vec<&Address>) {
+        candidates.sort_by_key(|a| std::cmp::Reverse(a.id));
+        let perm = {
+            let mut guard = CHOOSER.lock().unwrap();
+            match guard.as_mut() {
+                Some(c) => c(&candidates[..]),
+                None => return,
+            }
+        };
+        assert_eq!(perm.len(), candidates.len());
+        let old = candidates.clone();
+        for (i, p) in perm.iter().enumerate() {
+            candidates[i] = old[*p];
+        }
+    }
+}
